@@ -441,6 +441,27 @@ Proof.
   cstep_cases HS; try discriminate; repeat split; reflexivity.
 Qed.
 
+(* TASK_FAILED at start-up: after a wrong state or the start-up timeout nothing of the group is
+   left at once (repairs C17-k, C17-m); after a failed dial the TERM/INT/KILL escalation to the
+   group is under way (and ends as ctl_escalation_bounded / ctl_no_survivor say) *)
+Lemma ctl_failed_startup_leaves_nothing b s a s' o :
+  a = APollBad \/ a = APollTimeout ->
+  cstep b s a = (s', o) -> statuses o = [FAILED] ->
+  c_gc s' = false /\ is_run (c_proc s') = false /\ c_phase s' = CEnd /\ c_active s' = false.
+Proof.
+  intros Ha HS HF. destruct s as [ph rpc act pend kpc tg proc gc dn cr].
+  destruct Ha; subst a; cstep_cases HS; try discriminate; repeat split; reflexivity.
+Qed.
+
+Lemma ctl_failed_dial_escalates b s s' o :
+  cstep b s ADialTimeout = (s', o) -> statuses o = [FAILED] ->
+  esc_ok s' /\ c_tgt s' = ToGroup /\ sigs o = [TERM] /\ c_active s' = false.
+Proof.
+  intros HS HF. destruct s as [ph rpc act pend kpc tg proc gc dn cr]. unfold esc_ok.
+  cstep_cases HS; try discriminate;
+    (split; [split; [reflexivity|split; [right; reflexivity|left; discriminate]]|repeat split; reflexivity]).
+Qed.
+
 (* ====================================================================================== *)
 (* basic and hook tasks                                                                    *)
 (* ====================================================================================== *)
